@@ -446,6 +446,9 @@ func okParamList(nodes []ast.Node) (*token.Token, bool) {
 	log.Debugf("okParamList: %d: %#v", l, nodes)
 	for i, n := range nodes {
 		last := i == l-1
+		if n == nil { // a parameter that failed to parse (its error is already recorded).
+			return token.EOFT, false
+		}
 		t := n.Value()
 		if last && t.Type() == token.DOTDOT {
 			return t, true
